@@ -79,12 +79,14 @@ def _junctions(draw):
     tf = t0 + sgn * N * h
     ks = sorted(set(draw(st.lists(st.integers(1, N - 1), min_size=1, max_size=2))))
     evs = []
+    bound = draw(st.sampled_from([False, False, True]))
     for _ in range(draw(st.integers(1, 3))):
         k = draw(st.sampled_from(ks + ks + [draw(st.integers(1, N - 1))]))
         tj = t0 + sgn * k * h
         m = draw(st.sampled_from([0, 0, 0, 1, -1, 4]))
         kind = draw(st.sampled_from(["time", "comp"]))
-        p = dict(h=kind, s=draw(st.sampled_from([1.0, 1e3, 1e-3, -1.0])), direction=draw(st.sampled_from([0, 0, 1, -1])), terminal=False)
+        # (a bound method cannot carry the direction / is_terminal attributes: such events cross in either direction)
+        p = dict(h=kind, s=draw(st.sampled_from([1.0, 1e3, 1e-3, -1.0])), direction=draw(st.sampled_from([0, 0, 1, -1])) if not bound else 0, terminal=False)
         c = np.float64((0.25 + (tj - t0)) if kind == "comp" else tj)
         for _i in range(abs(m) if abs(float(c)) >= 1e-3 else 0):      # (next to 0 the neighbours are subnormal: not a meaningful threshold)
             c = np.nextafter(c, np.float64(np.sign(m) * np.inf))
@@ -94,7 +96,10 @@ def _junctions(draw):
         evs.append(p)
     return dict(part="junctions", method=method, dtype="float64", prob=dict(kind="const", y0=[0.25, -1.0], v=[1.0, 0.5]), t0=t0, tf=tf, dt=h,
                 rtol=1e-6, atol=1e-6, dense=draw(st.booleans()), events=evs, pre_targets=[t0 + sgn * k * h for k in ks],
-                dir_after=[draw(st.sampled_from([None, None, 1, -1, 0])) for _ in evs])
+                dir_after=[draw(st.sampled_from([None, None, 1, -1, 0])) for _ in evs] if not bound else [None for _ in evs],
+                # the event functions are handed over as bound methods (`events=[watcher.crossed]`): every call of integrate()
+                # then receives NEW objects for the same functions (attribute access creates a bound method each time)
+                as_bound_methods=bound)
 
 
 def parts(tier):
@@ -198,7 +203,7 @@ def check(case):
         prev_n, prev_e = n_sys, n_ev
     byfun = {}
     for rec in recs:
-        byfun.setdefault(id(rec.event), []).append(rec)
+        byfun.setdefault(id(getattr(rec.event, "__self__", rec.event)), []).append(rec)
     boundary = False
     for j, ev in enumerate(r.evs):
         mine = byfun.get(id(ev), [])
